@@ -1,0 +1,14 @@
+//go:build verif
+
+package pubsub
+
+// Read-only export for the verification harness (extension family X05, batch
+// publishing; see /verif/spec/batch). Nothing here changes library behaviour.
+
+// VerifMessages returns a copy of the messages the batch currently holds, in
+// the order they were added.
+func (mb *MessageBatch) VerifMessages() []*Message {
+	mb.mu.Lock()
+	defer mb.mu.Unlock()
+	return append([]*Message(nil), mb.messages...)
+}
